@@ -167,6 +167,12 @@ type Engine struct {
 	sentAt  map[int]int
 	Open    map[string][]byte // client model: path (relative) -> buffer text
 	Saved   map[string]bool   // buffer equals disk
+	// External marks open documents whose disk file was changed by the world (not by an edit of
+	// the buffer) so that buffer and disk diverged without any "unsaved edit"; cleared by save/close.
+	External map[string]bool
+	// Reverted marks open documents whose buffer was brought back to the disk text by a didChange
+	// (undo) rather than by a save.
+	Reverted map[string]bool
 	version map[string]int
 	events  []pendingEvt
 	budget  int
@@ -434,6 +440,7 @@ func (e *Engine) exec(i int, op *Op) {
 		e.Open[op.Path] = next
 		d, ok := simfs.Content(Abs(op.Path))
 		e.Saved[op.Path] = ok && string(d) == string(next)
+		e.Reverted[op.Path] = e.Saved[op.Path]
 		e.version[op.Path]++
 		e.sendRaw("textDocument/didChange", map[string]interface{}{"textDocument": map[string]interface{}{"uri": URI(op.Path), "version": e.version[op.Path]}, "contentChanges": changes}, false, i)
 		settle()
@@ -446,6 +453,8 @@ func (e *Engine) exec(i int, op *Op) {
 		existed := simfs.Exists(Abs(op.Path))
 		simfs.WriteFile(Abs(op.Path), cur)
 		e.Saved[op.Path] = true
+		delete(e.External, op.Path)
+		delete(e.Reverted, op.Path)
 		if !op.NoEvt {
 			if existed {
 				e.queueEvent(op.Path, 2)
@@ -462,6 +471,8 @@ func (e *Engine) exec(i int, op *Op) {
 		}
 		delete(e.Open, op.Path)
 		delete(e.Saved, op.Path)
+		delete(e.External, op.Path)
+		delete(e.Reverted, op.Path)
 		e.sendRaw("textDocument/didClose", map[string]interface{}{"textDocument": map[string]interface{}{"uri": URI(op.Path)}}, false, i)
 		settle()
 	case "fswrite":
@@ -469,6 +480,9 @@ func (e *Engine) exec(i int, op *Op) {
 		simfs.WriteFile(Abs(op.Path), op.Data)
 		if cur, isOpen := e.Open[op.Path]; isOpen {
 			e.Saved[op.Path] = string(cur) == string(op.Data)
+			if !e.Saved[op.Path] {
+				e.External[op.Path] = true
+			}
 		}
 		if !op.NoEvt {
 			if existed {
@@ -485,6 +499,7 @@ func (e *Engine) exec(i int, op *Op) {
 		simfs.Remove(Abs(op.Path))
 		if _, isOpen := e.Open[op.Path]; isOpen {
 			e.Saved[op.Path] = false
+			e.External[op.Path] = true
 		}
 		if !op.NoEvt {
 			e.queueEvent(op.Path, 3)
@@ -498,7 +513,15 @@ func (e *Engine) exec(i int, op *Op) {
 		e.events = append([]pendingEvt(nil), e.events[n:]...)
 		e.sendEvents(batch, i, op.Async)
 	case "event":
-		e.sendEvents([]pendingEvt{{op.Path, op.N}}, i, op.Async)
+		typ := op.N
+		if typ == 0 {
+			// a duplicate of an event that is true for the current disk state
+			typ = 3
+			if simfs.Exists(Abs(op.Path)) {
+				typ = 2
+			}
+		}
+		e.sendEvents([]pendingEvt{{op.Path, typ}}, i, op.Async)
 	case "touch":
 		if simfs.Exists(Abs(op.Path)) {
 			e.sendEvents([]pendingEvt{{op.Path, 2}}, i, op.Async)
@@ -533,6 +556,8 @@ func (e *Engine) exec(i int, op *Op) {
 			}
 		}
 		settle()
+	case "check":
+		// oracle checkpoint: interpreted by the property's AfterOp hook
 	case "step":
 		for k := 0; k < op.N && !e.failed; k++ {
 			if !e.stepOnce() {
@@ -586,6 +611,68 @@ func (e *Engine) exec(i int, op *Op) {
 	}
 }
 
+// Query executes request ops synchronously (oracle query batteries) and returns their answers.
+func (e *Engine) Query(ops []Op) []*Answer {
+	var out []*Answer
+	for k := range ops {
+		if e.failed {
+			break
+		}
+		n := len(e.res.Answers)
+		e.exec(100000+k, &ops[k])
+		if len(e.res.Answers) > n {
+			out = append(out, e.res.Answers[n])
+		}
+	}
+	return out
+}
+
+// ViewCopy returns a copy of the folded diagnostics view.
+func (e *Engine) ViewCopy() map[string][]string {
+	m := map[string][]string{}
+	for k, v := range e.res.View {
+		if len(v) > 0 {
+			m[k] = append([]string(nil), v...)
+		}
+	}
+	return m
+}
+
+// OpenDocs lists the open documents (sorted) with their buffer text.
+func (e *Engine) OpenDocs() []File {
+	var out []File
+	for p, t := range e.Open {
+		out = append(out, File{Path: p, Data: append(Bytes(nil), t...)})
+	}
+	sort.Slice(out, func(i, j int) bool { return out[i].Path < out[j].Path })
+	return out
+}
+
+// DirtyDocs lists open documents whose buffer differs from the disk file.
+func (e *Engine) DirtyDocs() []string {
+	var out []string
+	for p, ok := range e.Saved {
+		if !ok {
+			out = append(out, p)
+		}
+	}
+	sort.Strings(out)
+	return out
+}
+
+// DiskFiles returns the current disk tree below Root as scenario files.
+func DiskFiles() []File {
+	var out []File
+	for _, p := range simfs.Files() {
+		if !strings.HasPrefix(p, Root+"/") {
+			continue
+		}
+		d, _ := simfs.Content(p)
+		out = append(out, File{Path: strings.TrimPrefix(p, Root+"/"), Data: d})
+	}
+	return out
+}
+
 // AllSaved reports whether every open buffer equals its disk file and no watcher event is pending.
 func (e *Engine) AllSaved() bool {
 	if len(e.events) > 0 {
@@ -626,7 +713,7 @@ const DefaultMaxSteps = 400000
 func Run(t *testing.T, sc *Scenario, cfg simrt.Config, hooks Hooks) *RunResult {
 	res := &RunResult{Outcome: OutOK, View: map[string][]string{}, Probes: map[string]int{}}
 	synctest.Test(t, func(t *testing.T) {
-		e := &Engine{sc: sc, res: res, hooks: hooks, byID: map[int]*Answer{}, sentAt: map[int]int{}, Open: map[string][]byte{}, Saved: map[string]bool{}, version: map[string]int{}}
+		e := &Engine{sc: sc, res: res, hooks: hooks, byID: map[int]*Answer{}, sentAt: map[int]int{}, Open: map[string][]byte{}, Saved: map[string]bool{}, External: map[string]bool{}, Reverted: map[string]bool{}, version: map[string]int{}}
 		e.budget = hooks.MaxSteps
 		if e.budget == 0 {
 			e.budget = DefaultMaxSteps
